@@ -129,6 +129,7 @@ type ContractDB struct {
 	UFuns     map[string]*UFun
 	Rules     []*SiteRule
 	MapInvs   []*MapInv
+	ChanInvs  []*MapInv // same shape: Func.var + clause over v
 	GhostAlias map[string]string // type name → owner whose ghost fields it shares (ghost like Stream: Reader, Buffer)
 }
 
@@ -399,6 +400,18 @@ func (db *ContractDB) loadContractFile(path string, pkgPath string, src []byte) 
 				return fmt.Errorf("%s:%d: targets outside rule", path, rl.line)
 			}
 			curRule.Targets = append(curRule.Targets, strings.Fields(rest)...)
+		case "chaninv":
+			props, r2 := splitProps(rest)
+			f := strings.SplitN(r2, " ", 2)
+			i := strings.LastIndex(f[0], ".")
+			if len(f) != 2 || i < 0 {
+				return fmt.Errorf("%s:%d: bad chaninv", path, rl.line)
+			}
+			c, err := mkClause(f[1], rl.line)
+			if err != nil {
+				return err
+			}
+			db.ChanInvs = append(db.ChanInvs, &MapInv{PkgPath: pkgPath, Func: f[0][:i], Var: f[0][i+1:], Clause: c, Props: props})
 		case "mapinv":
 			// mapinv [props] Func.var <expr over k, v>
 			props, r2 := splitProps(rest)
